@@ -16,6 +16,72 @@ type POQuery struct {
 	Quiescence bool
 	// Goal builds the obligation formula (negated property) from the events.
 	Goal func(po *PO) *smt.Term
+	// Race: the goal is "two conflicting accesses of different threads, at least one of them
+	// plain, are adjacent in the global order" (DESIGN 5.20); RaceExcl lists pair keys to ignore.
+	Race     bool
+	RaceExcl map[string]bool
+}
+
+// PORace is one statically conflicting pair of accesses.
+type PORace struct {
+	A, B   *POEvent
+	AA, BA *POAccess
+	Loc    *POLoc
+	Var    *smt.Term
+}
+
+func (r PORace) Key() string {
+	a, b := r.A.Pos+" "+accKind(r.AA), r.B.Pos+" "+accKind(r.BA)
+	if b < a {
+		a, b = b, a
+	}
+	return r.Loc.Name + " | " + a + " | " + b
+}
+
+func accKind(a *POAccess) string {
+	k := "read"
+	if a.WV != nil {
+		k = "write"
+	}
+	if a.Atomic {
+		k = "atomic-" + k
+	}
+	return k
+}
+
+// racePairs lists the candidate pairs: same location, different threads, at least one write,
+// at least one plain access; channel locations and observer threads are left out.
+func (po *PO) racePairs() []PORace {
+	var out []PORace
+	for _, l := range sortedLocs(po.Locs) {
+		if l.IsChan {
+			continue
+		}
+		add := func(x, y *POAccessRef) {
+			if x.Ev.T == y.Ev.T || x.Ev.T.Final || y.Ev.T.Final {
+				return
+			}
+			if x.A.Atomic && y.A.Atomic {
+				return
+			}
+			out = append(out, PORace{A: x.Ev, B: y.Ev, AA: x.A, BA: y.A, Loc: l})
+		}
+		for i, w := range l.Writes {
+			for _, r := range l.Reads {
+				if r.Ev == w.Ev {
+					continue
+				}
+				add(w, r)
+			}
+			for j := i + 1; j < len(l.Writes); j++ {
+				add(w, l.Writes[j])
+			}
+		}
+	}
+	for i := range out {
+		out[i].Var = smt.Var(fmt.Sprintf("race!%d", i), smt.Bool)
+	}
+	return out
 }
 
 type POResult struct {
@@ -28,6 +94,7 @@ type POResult struct {
 	Asserts  int
 	Failed   []string // labels of assertion events violated in the model
 	FailedEv []*POEvent
+	Races    []PORace
 	KnownHit []string // known findings matched (and excluded) while answering this query
 	Script   string
 }
@@ -303,10 +370,42 @@ func (po *PO) Solve(q POQuery, timeout time.Duration) POResult {
 			}
 		}
 	}
-	goal := q.Goal(po)
 	res := POResult{Name: q.Name}
 	evs := po.allEvents()
 	res.Events = len(evs)
+	var goal *smt.Term
+	var races []PORace
+	if q.Race {
+		races = po.racePairs()
+		var alts []*smt.Term
+		for _, rc := range races {
+			if q.RaceExcl[rc.Key()] {
+				continue
+			}
+			cs := []*smt.Term{rc.A.X, rc.B.X}
+			if rc.AA.WV != nil && rc.AA.WG != nil {
+				cs = append(cs, rc.AA.WG)
+			}
+			if rc.BA.WV != nil && rc.BA.WG != nil {
+				cs = append(cs, rc.BA.WG)
+			}
+			// no executed event strictly between the two (events with equal clocks are
+			// independent and can be linearised outside the pair)
+			for _, e := range evs {
+				if e == rc.A || e == rc.B || e.T.Final || e.Kind == "root" {
+					continue
+				}
+				between := smt.Or(smt.And(cLt(rc.A.C, e.C), cLt(e.C, rc.B.C)), smt.And(cLt(rc.B.C, e.C), cLt(e.C, rc.A.C)))
+				cs = append(cs, smt.Not(smt.And(e.X, between)))
+			}
+			as = append(as, smt.Implies(rc.Var, smt.And(cs...)))
+			alts = append(alts, rc.Var)
+		}
+		res.Asserts = len(alts)
+		goal = smt.Or(alts...)
+	} else {
+		goal = q.Goal(po)
+	}
 	if goal.IsFalse() {
 		res.Res = smt.Unsat
 		res.Solver = "trivial"
@@ -349,6 +448,11 @@ func (po *PO) Solve(q POQuery, timeout time.Duration) POResult {
 	sb.WriteString("(check-sat)\n")
 	script := sb.String()
 	names = append(names, violNames...)
+	for _, rc := range races {
+		if !q.RaceExcl[rc.Key()] {
+			names = append(names, rc.Var.Name)
+		}
+	}
 	withModel := script + "(get-value (" + strings.Join(names, " ") + "))\n"
 	type ans struct {
 		kind string
@@ -406,6 +510,12 @@ func (po *PO) Solve(q POQuery, timeout time.Duration) POResult {
 		for n, e := range violVar {
 			if model[n] == 1 {
 				res.FailedEv = append(res.FailedEv, e)
+			}
+		}
+		for _, rc := range races {
+			if model[rc.Var.Name] == 1 {
+				res.Races = append(res.Races, rc)
+				res.Failed = append(res.Failed, "C19/data-race "+rc.Key())
 			}
 		}
 		sort.Slice(res.FailedEv, func(i, j int) bool { return res.FailedEv[i].ID < res.FailedEv[j].ID })
